@@ -31,6 +31,9 @@ def run(tier, seed, replay=None):
                 t = isotrees.small_tree(rng, max_nodes=rng.choice([2, 5, 9, 14]))
                 add("seq%d" % i, t, reopen=3)
                 add("par%d" % i, t, reopen=8, parallel=True, osfs=(i % 3 == 0))
+            # the same directory named differently (as make-iso gets it from a shell: trailing separator, "/.", ...)
+            for i in range(2 if not full else 8):
+                add("spell%d" % i, isotrees.small_tree(rng, max_nodes=6), reopen=5, osfs=(i % 2 == 0), spellings=["", "slash", "dot", "dslash", "slash"])
             add("wide", isotrees.wide_tree(rng, 150, 12), reopen=4, parallel=True)
             add("deep", isotrees.deep_tree(rng, 7), reopen=3)
             add("ps3", isotrees.ps3_tree(rng), ps3=True, reopen=3)
